@@ -8,7 +8,7 @@ MODEL_DEPS = ["Base/Bytes.v", "Base/GoSem.v", "Gen/FromGo.v", "DM/Value.v", "Cod
 DRIVER = "schema_driver"
 HARNESS = "c13"
 COUNTS = {"quick": 8, "thorough": 400}         # generated schemas (+ the corpus); 2 levels x 16 trees x 2 routes each
-HARNESS_TIMEOUT = {"quick": 900, "thorough": 7200}
+HARNESS_TIMEOUT = {"quick": 2400, "thorough": 10800}
 DESIGN_REF = "DESIGN.md §4 C13"
 TECHNIQUE = ("Coq proof (both engines are the same semantics once their deviations are switched off, and that "
              "semantics is the specification) + on every run: code generated afresh by the generator of the working "
